@@ -66,10 +66,13 @@ inline Manifold GenPrimitive(Tape& t, std::ostream& d, int maxKind = 6) {
     }
     case 4: {
       d << "Extrude(";
-      auto p = GenStar(t, 3, 9, 0.4, 1.2, d);
+      // a twisted extrusion is only epsilon-valid (not self-intersecting) for
+      // a mild profile and a small twist per division; construct it that way
+      bool twisted = t.flip();
+      auto p = twisted ? GenStar(t, 3, 9, 0.75, 1.1, d, 0.3) : GenStar(t, 3, 9, 0.4, 1.2, d);
       double h = t.real(0.4, 1.5);
-      int div = t.range(0, 3);
-      double tw = t.flip() ? t.real(-60, 60) : 0.0;
+      int div = twisted ? t.range(1, 4) : t.range(0, 3);
+      double tw = twisted ? t.real(-8, 8) * (div + 1) : 0.0;
       vec2 sc = t.flip() ? vec2(t.real(0.3, 1.3), t.real(0.3, 1.3)) : vec2(1.0);
       d << "," << num(h) << "," << div << "," << num(tw) << ",(" << num(sc.x) << "," << num(sc.y) << "))";
       return Manifold::Extrude({p}, h, div, tw, sc);
